@@ -47,6 +47,11 @@ def cases(tier, seed):
                     for side in ("below", "above"):
                         out.append({"kind": "cell", "ff": ff, "group": g, "pos": pos, "side": side,
                                     "seed": seed * 1009 + rep * 100000 + len(out)})
+    # residues that share name, number and chain and differ only by insertion code (52, 52A, 52B), pKa sides mixed
+    for rep in range(1 if tier == "quick" else 60):
+        for ff in common.FFS:
+            for g in GROUPS:
+                out.append({"kind": "icodecell", "ff": ff, "group": g, "seed": seed * 1013 + rep * 1000 + len(out)})
     ns = 24 if tier == "quick" else 2500
     for i in range(ns):
         out.append({"kind": "sweep", "ff": common.FFS[i % 6], "seed": seed * 7001 + i})
@@ -164,8 +169,21 @@ def build(rng, seq=None, nres=None):
     seq = seq or [rng.choice(GROUPS + ["ALA", "SER", "GLY"]) for _ in range(nres or rng.randint(3, 7))]
     pep = S.peptide(seq, rng, hydrogens=rng.choice(["none", "none", "all"]))
     # numbering includes four-character residue numbers (>= 1000, <= -100), which fill PROPKA's label column
-    items, truth = S.assemble([{"id": rng.choice(["A", "A", "B", "Z"]),
-                                "start": rng.choice([1, 5, 40, 997, 1047, 9990, -3, -104]), "residues": pep}])
+    start = rng.choice([1, 5, 40, 997, 1047, 9990, -3, -104])
+    numbers = [start + k for k in range(len(pep))]
+    icodes = [""] * len(pep)
+    if rng.random() < 0.3:
+        # insertion codes (antibody-style 52, 52A, 52B): several residues share one number - and, for equal residue
+        # names, everything of PROPKA's label except the insertion code
+        k0 = rng.randrange(len(pep) - 1)
+        n = rng.randint(1, min(3, len(pep) - 1 - k0))
+        for j in range(1, n + 1):
+            numbers[k0 + j] = numbers[k0]
+            icodes[k0 + j] = "ABC"[j - 1]
+        for j in range(k0 + n + 1, len(pep)):
+            numbers[j] = numbers[k0] + (j - k0 - n)
+    items, truth = S.assemble([{"id": rng.choice(["A", "A", "B", "Z"]), "numbers": numbers, "icodes": icodes,
+                                "residues": pep}])
     return pdbfmt.to_text(items), items, truth
 
 
@@ -202,6 +220,44 @@ def run_cell(spec, res):
     judge_groups(res, spec, truth, items, groups, r, ph, spec["ff"])
     res.sample = {"kind": "cell", "seq": seq, "ff": spec["ff"], "pH": ph,
                   "table": [(g["group"], round(g["pka"], 4), g["side"]) for g in groups]}
+
+
+def run_icodecell(spec, res):
+    install()
+    rng = random.Random(spec["seed"])
+    x = spec["group"]
+    seq = ["ALA", x, x, x, "ALA"]
+    pep = S.peptide(seq, rng, hydrogens=rng.choice(["none", "none", "all"]))
+    n0 = rng.choice([7, 52, 100, 998])
+    items, truth = S.assemble([{"id": "H", "numbers": [n0 - 1, n0, n0, n0, n0 + 1], "icodes": ["", "", "A", "B", ""],
+                                "residues": pep}])
+    text = pdbfmt.to_text(items)
+    ph = round(rng.uniform(1, 13), rng.choice([1, 2]))
+    sides = rng.choice([("below", "above", "below"), ("above", "below", "above"), ("below", "below", "above"),
+                        ("above", "above", "below"), ("below", "above", "above"), ("above", "below", "below")])
+    forced = {(x, 1): sides[0], (x, 2): sides[1], (x, 3): sides[2]}
+    rows, groups = make_table(truth, rng, ph, forced)
+    STUB["table"] = rows
+    STUB["titration_log"] = []
+    try:
+        r = pipeline.run(text, [f"--ff={spec['ff']}", "--titration-state-method=propka", f"--with-ph={ph}"], workname="c06")
+    finally:
+        STUB["table"] = None
+    res.count("stub_runs")
+    res.count("icode_cells")
+    if not r.ok:
+        res.violate(f"titration/run-aborts/{x}@icodes/{spec['ff']}", f"run with insertion-coded {x} residues fails: "
+                    f"{type(r.exc).__name__} {str(r.exc)[:100]}", ff=spec["ff"], group=x, pH=ph, seed=spec["seed"])
+        return
+    before = len(res.violations)
+    judge_groups(res, spec, truth, items, [g for g in groups if g["group"] == x], r, ph, spec["ff"])
+    for v in res.violations[before:]:
+        # mechanism: the pKa rows / dictionary keys do not carry the insertion code
+        v["witness"]["original_mech"] = v["mech"]
+        v["witness"]["sides_in_file_order"] = sides
+        v["mech"] = "titration/residues-sharing-number-differ-only-by-insertion-code/" + v["mech"].split("/")[1]
+    res.nt("icodecell", x, spec["ff"], sides)
+    res.sample = {"kind": "icodecell", "group": x, "ff": spec["ff"], "pH": ph, "sides": sides}
 
 
 def total_and_residues(r):
@@ -261,6 +317,15 @@ def run_sweep(spec, res, real=False):
                 if g not in TITR or len(ks) != 1 or (g in GROUPS and truth[ks[0]]["base"] != g):
                     res.count("propka_rows_not_judged")
                     continue
+                tpos = truth[ks[0]]["pos"]
+                if (g == "N+" and tpos not in ("N", "NC")) or (g == "C-" and tpos not in ("C", "NC")):
+                    # PROPKA sees a terminus at a backbone gap inside the chain; pdb2pqr has no terminal group there
+                    res.count("propka_rows_not_judged")
+                    continue
+                if g == "CYS" and row["pKa"] >= 99:
+                    # PROPKA's marker for a disulfide-bonded cysteine (not titratable; no HG either way)
+                    res.count("propka_rows_not_judged")
+                    continue
                 groups.append({"group": g, "k": ks[0], "side": "below" if ph < row["pKa"] else "above", "rel": "propka",
                                "pka": row["pKa"]})
             res.count("propka_rows_judged", len(groups))
@@ -300,6 +365,8 @@ def run_case(spec):
     res = Res()
     if spec["kind"] == "cell":
         run_cell(spec, res)
+    elif spec["kind"] == "icodecell":
+        run_icodecell(spec, res)
     elif spec["kind"] == "sweep":
         run_sweep(spec, res)
     else:
